@@ -26,6 +26,9 @@ func init() {
 func c09() []*Ob {
 	const bulkFn = "(*proxy/bulk.shard).Bulk"
 	return []*Ob{
+		{Prop: "C09", ID: "C09.9", Engine: "TYPESTATE(use after put)", Floor: 3,
+			Desc:  "what a replica is sent is what the proxy compressed for this bulk: an object handed back to a pool (sync.Pool.Put directly, or through a repo function that puts its argument: PutDocMetasCompressor, bytespool.Release, ...) is not used again by the same function after a hand-back that is not deferred — the docs/metas compressor put back before StoreDocuments has finished is picked up by a concurrent bulk, which overwrites the buffers the first bulk's request still points at: replicas contacted later receive the other bulk's bytes and the first bulk is acknowledged all the same",
+			Check: func(c *Ctx) { noUseAfterPut(c) }},
 		{Prop: "C09", ID: "C09.1", Engine: "DOM+PROV", Floor: 1,
 			Desc: "written-bit only on success and for the right replica: every store of true into writtenReplicas[i] is dominated by the nil error of sendBulkToHost in the same goroutine, and i and the replica sent to come from the same loop iteration; in sendBulkToStores the status slice passed to shard.Bulk is getShard(k) for the same k that selected the shard",
 			Check: func(c *Ctx) {
@@ -479,4 +482,137 @@ func recoveredIsReported(c *Ctx) {
 	if n == 0 {
 		c.Undecided("ack:recover:none", 0, "no recovering function with an error result found (fracSearch, fracFetch and the gRPC interceptors used to be)")
 	}
+}
+
+// noUseAfterPut: rule body of C09.9 (repository-wide).
+func noUseAfterPut(c *Ctx) {
+	poolPut := Callee("(*sync.Pool).Put")
+	// release functions: repo functions that hand one of their parameters to a pool (directly or one level down)
+	type rel struct{ param int }
+	releases := map[*ssa.Function]rel{}
+	for pass := 0; pass < 2; pass++ {
+		for _, fn := range c.P.Funcs {
+			if !c.P.InRepo(fn) || fn.Blocks == nil || fn.Parent() != nil {
+				continue
+			}
+			if _, done := releases[fn]; done {
+				continue
+			}
+			for _, call := range CallsIn(fn, nil) {
+				if _, isDefer := call.(*ssa.Defer); isDefer {
+					continue
+				}
+				var handed ssa.Value
+				if poolPut(call) {
+					handed = Arg(call, 0)
+				} else if h := StaticCallee(call); h != nil {
+					if r, ok := releases[h]; ok && r.param < len(call.Common().Args) {
+						handed = call.Common().Args[r.param]
+					}
+				}
+				if handed == nil {
+					continue
+				}
+				if mi, ok := handed.(*ssa.MakeInterface); ok {
+					handed = mi.X
+				}
+				for pi, prm := range fn.Params {
+					if handed == ssa.Value(prm) {
+						releases[fn] = rel{pi}
+					}
+				}
+			}
+		}
+	}
+	n := 0
+	for _, fn := range c.P.Funcs {
+		if !c.P.InRepo(fn) || fn.Blocks == nil {
+			continue
+		}
+		if _, isRel := releases[fn]; isRel {
+			continue
+		}
+		for _, call := range CallsIn(fn, nil) {
+			if _, isDefer := call.(*ssa.Defer); isDefer {
+				continue
+			}
+			var handed ssa.Value
+			if poolPut(call) {
+				handed = Arg(call, 0)
+			} else if h := StaticCallee(call); h != nil {
+				if r, ok := releases[h]; ok && r.param < len(call.Common().Args) {
+					handed = call.Common().Args[r.param]
+				}
+			}
+			if handed == nil {
+				continue
+			}
+			if mi, ok := handed.(*ssa.MakeInterface); ok {
+				handed = mi.X
+			}
+			if handed.Referrers() == nil {
+				continue
+			}
+			n++
+			var later ssa.Instruction
+			for _, r := range *handed.Referrers() {
+				if r == call.(ssa.Instruction) || r.Parent() != fn {
+					continue
+				}
+				if _, isDbg := r.(*ssa.DebugRef); isDbg {
+					continue
+				}
+				if followsWithoutRedefinition(call.(ssa.Instruction), r, handed) {
+					// handing the same object back again on another iteration of a loop is the same event, not a use
+					if cl, ok := r.(ssa.CallInstruction); ok && (poolPut(cl) || func() bool { _, isR := releases[StaticCallee(cl)]; return isR }()) {
+						continue
+					}
+					later = r
+				}
+			}
+			if later == nil {
+				c.Site(call.Pos(), "%s: nothing uses the object after it went back to its pool", FuncName(fn))
+			} else {
+				c.Violation("typestate:use-after-put:"+FuncName(fn)+":"+CallName(call), later.Pos(), "%s uses an object after handing it back to its pool with %s (the hand-back is not deferred): whoever takes it from the pool meanwhile shares it", FuncName(fn), CallName(call))
+			}
+		}
+	}
+	if n == 0 {
+		c.Undecided("typestate:use-after-put:none", 0, "no non-deferred hand-back to a pool found")
+	}
+}
+
+// followsWithoutRedefinition: instruction to can run after from on a path that does not pass the definition of v
+// again (a value defined inside a loop body is a new object on every iteration).
+func followsWithoutRedefinition(from, to ssa.Instruction, v ssa.Value) bool {
+	var defBlock *ssa.BasicBlock
+	if in, ok := v.(ssa.Instruction); ok {
+		defBlock = in.Block()
+	}
+	pos := func(in ssa.Instruction) int {
+		for i, x := range in.Block().Instrs {
+			if x == in {
+				return i
+			}
+		}
+		return -1
+	}
+	if from.Block() == to.Block() && pos(to) > pos(from) {
+		return true
+	}
+	seen := map[*ssa.BasicBlock]bool{}
+	work := append([]*ssa.BasicBlock{}, from.Block().Succs...)
+	for len(work) > 0 {
+		b := work[len(work)-1]
+		work = work[:len(work)-1]
+		if seen[b] || b == defBlock {
+			continue
+		}
+		seen[b] = true
+		if b == to.Block() {
+			return true
+		}
+		work = append(work, b.Succs...)
+	}
+	return false
 }
